@@ -121,9 +121,16 @@ theorem steps_set_same (d : Daemon) (i : Id) (x : Conn) (h1 : x.la = (d.c i).la)
 
 theorem steps_epollUpdate (d : Daemon) (i : Id) : Steps d (epollUpdate d i) := by
   refine steps_of_others (others_epollUpdate d i) ?_
-  unfold epollUpdate Step1
+  unfold epollUpdate epollArm epollQueue Step1
   dsimp only
-  split <;> first | (simp; done) | (simp; grind) | grind
+  repeat' split
+  all_goals first | (simp; done) | (simp; grind) | grind
+
+theorem steps_procBuf (d : Daemon) (i : Id) : Steps d (procBuf d i) := by
+  rcases procBuf_cases d i with e | e <;> rw [e]
+  · exact Steps.refl d
+  · exact steps_set_same d i _ rfl rfl rfl (fun h => h)
+
 
 theorem steps_epollEvent (d : Daemon) (i : Id) : Steps d (epollEvent d i) := by
   have o : Others i d (epollEvent d i) := by
@@ -148,6 +155,9 @@ theorem foldl_steps {f : Daemon → Id → Daemon} (hf : ∀ d i, Steps d (f d i
 
 theorem steps_flags (d d' : Daemon) (hn : d'.now = d.now) (hb : d'.back = d.back) (hc : d'.c = d.c) : Steps d d' :=
   ⟨hn, hb, fun j => by rw [hc]; exact Step1.refl _ _⟩
+
+theorem steps_notePending (v : Variant) (d : Daemon) (i : Id) : Steps d (notePending v d i) := by
+  rw [notePending_eq]; exact steps_flags _ _ rfl rfl rfl
 
 theorem steps_resumeSuspended (v : Variant) (d : Daemon) : Steps d (resumeSuspended v d) := by
   unfold resumeSuspended
@@ -211,8 +221,7 @@ theorem sound_handleIdle {d0 d : Daemon} (hs : Steps d0 d) (i : Id) : Sound d0 (
 theorem sound_readData (v : Variant) {d0 d : Daemon} (hs : Steps d0 d) (i : Id) : Sound d0 (readData v d i) := by
   unfold readData
   dsimp only
-  have s1 := Steps.trans hs (steps_set_same d i { (d.c i) with unread := false, readReady := false }
-    rfl rfl rfl (fun h => h))
+  have s1 := Steps.trans hs (steps_set_same d i (readRec (d.c i)) rfl rfl rfl (fun h => h))
   have s2 := Steps.trans s1 (steps_updateLastActivity v _ i)
   split
   · split
@@ -232,9 +241,19 @@ theorem sound_closeOther {d0 d : Daemon} (hs : Steps d0 d) (i : Id) (code : Nat)
   intro j a hm; simp at hm
 
 
+theorem sound_handleIdleP {d0 d : Daemon} (hs : Steps d0 d) (i : Id) : Sound d0 (handleIdleP d i) :=
+  sound_handleIdle (Steps.trans hs (steps_procBuf d i)) i
+
+theorem sound_note (v : Variant) {d0 : Daemon} {r : Daemon × List Event} (h : Sound d0 r) (i : Id) :
+    Sound d0 (notePending v r.1 i, r.2) :=
+  ⟨Steps.trans h.1 (steps_notePending v r.1 i), h.2⟩
+
 theorem sound_callHandlersSel (v : Variant) {d0 d : Daemon} (hs : Steps d0 d) (i : Id) (r : Bool) :
     Sound d0 (callHandlersSel v d i r) := by
   unfold callHandlersSel
+  dsimp only
+  apply sound_note
+  unfold callHandlersSel0
   dsimp only
   split
   · exact sound_handleIdle hs i
@@ -242,7 +261,7 @@ theorem sound_callHandlersSel (v : Variant) {d0 d : Daemon} (hs : Steps d0 d) (i
     · exact sound_seq2 (sound_readData v hs i) (fun d' h' => sound_handleIdle h' i)
     · split
       · exact sound_seq2 (sound_closeOther hs i _) (fun d' h' => sound_handleIdle h' i)
-      · exact sound_handleIdle hs i
+      · exact sound_handleIdleP hs i
 
 theorem sound_travSel (v : Variant) (rs : List Id) {d0 : Daemon} : ∀ (l : List Id) (d : Daemon), Steps d0 d →
     Sound d0 (travSel v rs l d)
@@ -287,7 +306,7 @@ theorem sound_scanManual {d0 : Daemon} : ∀ (l : List Id) (d : Daemon), Steps d
   | [], d, hs => ⟨hs, evOk_nil d0⟩
   | i :: rest, d, hs => by
     unfold scanManual
-    exact sound_seq2 (sound_handleIdle hs i) (fun d' h' => sound_scanManual rest d' h')
+    exact sound_seq2 (sound_handleIdleP hs i) (fun d' h' => sound_scanManual rest d' h')
 
 theorem sound_scanNormal {d0 : Daemon} : ∀ (l : List Id) (d : Daemon), Steps d0 d → Sound d0 (scanNormal l d)
   | [], d, hs => ⟨hs, evOk_nil d0⟩
@@ -295,8 +314,8 @@ theorem sound_scanNormal {d0 : Daemon} : ∀ (l : List Id) (d : Daemon), Steps d
     unfold scanNormal
     dsimp only
     split
-    · exact sound_seq2 (sound_handleIdle hs i) (fun d' h' => sound_scanNormal rest d' h')
-    · exact sound_handleIdle hs i
+    · exact sound_seq2 (sound_handleIdleP hs i) (fun d' h' => sound_scanNormal rest d' h')
+    · exact sound_handleIdleP hs i
 
 theorem sound_callHandlersE0 (v : Variant) {d0 d : Daemon} (hs : Steps d0 d) (i : Id) : Sound d0 (callHandlersE0 v d i) := by
   unfold callHandlersE0
@@ -310,19 +329,26 @@ theorem sound_callHandlersE0 (v : Variant) {d0 d : Daemon} (hs : Steps d0 d) (i 
     · split
       · exact sound_handleIdle hs i
       · split
+        · exact sound_handleIdleP hs i
         · split
-          · exact sound_seq2 (sound_readData v hs i) (fun d' h' => sound_handleIdle h' i)
           · split
-            · exact sound_seq2 (sound_closeOther hs i _) (fun d' h' => sound_handleIdle h' i)
-            · apply sound_handleIdle
-              refine Steps.trans hs ?_
-              exact steps_set_same d i _ rfl rfl rfl (fun h => h)
-        · exact sound_handleIdle hs i
+            · exact sound_seq2 (sound_readData v hs i) (fun d' h' => sound_handleIdle h' i)
+            · split
+              · exact sound_seq2 (sound_closeOther hs i _) (fun d' h' => sound_handleIdle h' i)
+              · apply sound_handleIdle
+                refine Steps.trans hs ?_
+                exact steps_set_same d i _ rfl rfl rfl (fun h => h)
+          · exact sound_handleIdle hs i
 
 theorem sound_callHandlersE (v : Variant) {d0 d : Daemon} (hs : Steps d0 d) (i : Id) : Sound d0 (callHandlersE v d i) := by
   unfold callHandlersE
   dsimp only
-  have h := sound_callHandlersE0 v hs i
+  have h : Sound d0 (callHandlersE1 v d i) := by
+    unfold callHandlersE1
+    dsimp only
+    split
+    · exact sound_callHandlersE0 v hs i
+    · exact sound_note v (sound_callHandlersE0 v hs i) i
   split
   · exact ⟨Steps.trans h.1 (steps_flags _ _ rfl rfl rfl), h.2⟩
   · exact h
